@@ -175,6 +175,11 @@ func (s *sys) exec(o Op) (out string, mutating bool) {
 		}
 		return errClass(s.P.Update(&fakeProv{id: o.A[0], name: o.A[1], tok: o.A[2], kid: o.A[3], hasKey: o.H})), true
 	case "pr":
+		// removed while a page is held: if it is stored again it is a new element under a new uid
+		// (same exclusion as for Update = Remove + Store)
+		if s.touchedP != nil {
+			s.touchedP[hx(o.A[0])] = true
+		}
 		return errClass(s.P.Remove(o.A[0])), true
 	case "pf":
 		l, next := s.P.Find(o.A[0], o.N)
